@@ -122,6 +122,8 @@ def c01(run):
     if usable and h:
         # "never dropped by lazy deletion on read / DeleteExpired": reads of expired-uncleaned keys racing writers
         sched_runs(run, h, ("cache", "cacheof"), "lazy", ("NONLIN", "PREFILL"), quick=(150, 6))
+        # entries that expire between two steps of a call (the clock advances during the concurrent phase)
+        sched_runs(run, h, ("cache", "cacheof"), "ticks", ("NONLIN", "PREFILL"), quick=(150, 6))
         trace_cache_runs(run, h, quick=(40, 4), focuses=("", "lazy"))
         if run.tier != "quick":
             sched_runs(run, h, ("cache", "cacheof"), "", ("NONLIN", "PREFILL"), quick=(200, 6))
@@ -183,6 +185,7 @@ def c02(run):
     if usable and h:
         sched_runs(run, h, ("cache", "cacheof"), "", ("NONLIN", "PREFILL"), quick=(400, 6))
         sched_runs(run, h, ("cache", "cacheof"), "lazy", ("NONLIN", "PREFILL"), quick=(200, 6))
+        sched_runs(run, h, ("cache", "cacheof"), "ticks", ("NONLIN", "PREFILL"), quick=(200, 6))
         trace_cache_runs(run, h)
     return R.finish(run, GAPS.get("C02", []))
 
